@@ -11,7 +11,7 @@ LINK_KINDS = ['link_file', 'link_dir', 'link_dangling', 'link_link',
               'link_self', 'link_dir', 'link_file', 'link_up', 'link_up']
 SPELL = ['rel', 'abs', 'trail1', 'trail2', 'trail3', 'abs_trail',
          'via_link_parent', 'dotslash', 'double_slash', 'dotdot',
-         'dotdot_link']
+         'dotdot_link', 'via_link_ancestor']
 
 
 def config(tier):
